@@ -27,7 +27,7 @@ def summarize_model(m, limit=12):
     return out
 
 
-def finish(prop, mod, tier, seed, res, known, t0, verbose=False, extra_cov=None):
+def finish(prop, mod, tier, seed, res, known, t0, verbose=False, extra_cov=None, extra_violations=None, extra_obligations=None):
     expected_exc = getattr(mod, "EXPECTED_EXCEPTIONS", ())
     violations = []      # dicts
     known_hits = {}
@@ -138,6 +138,12 @@ def finish(prop, mod, tier, seed, res, known, t0, verbose=False, extra_cov=None)
         js["seconds"] = round(js["seconds"], 2)
         jobs_summary.append(js)
 
+    for v in (extra_violations or []):
+        add_violation(v["fn"], v["params"], v["obligation"], v["model"], v["why"])
+    if extra_obligations:
+        n_obl += extra_obligations[0]
+        n_dis += extra_obligations[1]
+        n_inc += extra_obligations[2]
     # --- output lines
     rc = 0
     for kid, (k, rec) in sorted(known_hits.items()):
